@@ -7,10 +7,39 @@ extern crate alloc;
 
 pub mod util;
 pub mod oracle;
+pub mod gen;
 
+#[cfg(all(kani, feature = "c01"))]
+mod c01;
 #[cfg(all(kani, feature = "c02"))]
 mod c02;
 #[cfg(all(kani, feature = "c03"))]
 mod c03;
+#[cfg(all(kani, feature = "c04"))]
+mod c04;
+#[cfg(all(kani, feature = "c05"))]
+mod c05;
+#[cfg(all(kani, feature = "c06"))]
+mod c06;
+#[cfg(all(kani, feature = "c07"))]
+mod c07;
 #[cfg(all(kani, feature = "c08"))]
 mod c08;
+#[cfg(all(kani, feature = "c09", feature = "serialize"))]
+mod c09;
+#[cfg(all(kani, feature = "c10"))]
+mod c10;
+#[cfg(all(kani, feature = "c11"))]
+mod c11;
+#[cfg(all(kani, feature = "c12"))]
+mod c12;
+#[cfg(all(kani, feature = "c13"))]
+mod c13;
+#[cfg(all(kani, feature = "c15"))]
+mod c15;
+#[cfg(all(kani, feature = "c16"))]
+mod c16;
+#[cfg(all(kani, any(feature = "c17", feature = "c01")))]
+mod c17;
+#[cfg(all(kani, feature = "c14"))]
+mod c14;
